@@ -337,11 +337,9 @@ theorem tie_src_beacon_roundCache_append : Gen.ScriptsC03.beacon_roundCache_appe
   " if err != nil {",
   "  return false",
   " }",
-  " if _, seen := r.sigs[idx]; seen {",
-  "  return false",
-  " }",
+  " _, seen := r.sigs[idx]",
   " r.sigs[idx] = p.GetPartialSig()",
-  " return true",
+  " return !seen",
   "}"
 ] := rfl
 
